@@ -239,6 +239,24 @@ public:
 		vd.stat["msgs_sent"]++;
 	}
 
+	// Symbolic aiming (bit 1 of op.c): resolve the path against the model's current state so that generated
+	// operations hit existing elements often; without the bit (or with nothing to aim at) the pool index is used.
+	std::string path_for(const Op &op, int ci)
+	{
+		if (op.c & 2) {
+			std::vector<std::string> cand;
+			switch (op.kind) {
+			case REMOVE: case CHANGE: cand = m.peer(ci).owned; break;
+			case SET: for (auto &e : m.elems) if (e.second.is_state) cand.push_back(e.first); break;
+			case CALL: for (auto &e : m.elems) if (!e.second.is_state) cand.push_back(e.first); break;
+			case ADD: for (auto &g : m.gone_paths) if (!m.elems.count(g)) cand.push_back(g); break;
+			default: break;
+			}
+			if (!cand.empty()) { vd.stat["aimed"]++; return pick(cand, op.a); }
+		}
+		return pick(paths(), op.a);
+	}
+
 	std::vector<model::Inflight *> owner_inflight(int ci)
 	{
 		std::vector<model::Inflight *> v;
@@ -306,7 +324,7 @@ public:
 			return;
 		}
 		case ADD: {
-			Value p = Value::obj(); p.set("path", Value::str(pick(paths(), op.a)));
+			Value p = Value::obj(); p.set("path", Value::str(path_for(op, ci)));
 			if (op.b >= 0) p.set("value", parse_or_null(pick(values(), op.b)));
 			if (op.c & 1) p.set("fetchOnly", Value::boolean(true));
 			add_timeout(p, op.d);
@@ -314,9 +332,9 @@ public:
 			send_value(ci, request(op, "add", p), evs);
 			return;
 		}
-		case REMOVE: { Value p = Value::obj(); p.set("path", Value::str(pick(paths(), op.a))); send_value(ci, request(op, "remove", p), evs); return; }
+		case REMOVE: { Value p = Value::obj(); p.set("path", Value::str(path_for(op, ci))); send_value(ci, request(op, "remove", p), evs); return; }
 		case CHANGE: {
-			Value p = Value::obj(); p.set("path", Value::str(pick(paths(), op.a))); p.set("value", parse_or_null(pick(values(), op.b < 0 ? 0 : op.b)));
+			Value p = Value::obj(); p.set("path", Value::str(path_for(op, ci))); p.set("value", parse_or_null(pick(values(), op.b < 0 ? 0 : op.b)));
 			send_value(ci, request(op, "change", p), evs); return;
 		}
 		case FETCH: {
@@ -339,12 +357,12 @@ public:
 			send_value(ci, request(op, "get", p), evs); return;
 		}
 		case SET: {
-			Value p = Value::obj(); p.set("path", Value::str(pick(paths(), op.a))); p.set("value", parse_or_null(pick(values(), op.b < 0 ? 0 : op.b)));
+			Value p = Value::obj(); p.set("path", Value::str(path_for(op, ci))); p.set("value", parse_or_null(pick(values(), op.b < 0 ? 0 : op.b)));
 			add_timeout(p, op.d);
 			send_value(ci, request(op, "set", p), evs); return;
 		}
 		case CALL: {
-			Value p = Value::obj(); p.set("path", Value::str(pick(paths(), op.a)));
+			Value p = Value::obj(); p.set("path", Value::str(path_for(op, ci)));
 			if (op.b >= 0) p.set("args", parse_or_null(pick(values(), op.b)));
 			add_timeout(p, op.d);
 			send_value(ci, request(op, "call", p), evs); return;
@@ -398,6 +416,42 @@ public:
 		case DRAIN: k.drain(c.kc); return;
 		case CHUNK: { auto &cp = k.conns[c.kc].chunk_plan; for (int x : op.v) cp.push_back((size_t)(x < 1 ? 1 : x)); return; }
 		case JUNK: k.conns[c.kc].junk = ((op.a % 7) + 7) % 7; return;
+		case MUTREQ: {
+			static const char *meths[] = {"add", "remove", "change", "set", "call", "fetch", "unfetch", "get", "config"};
+			int mi = ((op.a % 9) + 9) % 9;
+			Value p = Value::obj();
+			if (mi <= 4) p.set("path", Value::str(pick(paths(), op.b)));
+			if (mi == 0 || mi == 2 || mi == 3) p.set("value", parse_or_null(pick(values(), op.d)));
+			if (mi == 5 || mi == 6) p.set("id", fetch_id_value(((op.b % 6) + 6) % 6));
+			if (mi == 8) p.set("name", Value::str("n"));
+			int mut = ((op.c % 12) + 12) % 12;
+			auto drop = [&](const char *k) { for (size_t i = 0; i < p.o.size(); i++) if (p.o[i].first == k) { p.o.erase(p.o.begin() + i); break; } };
+			auto repl = [&](const char *k, Value v) { drop(k); p.set(k, v); };
+			Value params = p; bool no_params = false;
+			switch (mut) {
+			case 1: drop("path"); drop("id"); break;
+			case 2: if (mi <= 4) repl("path", Value::num(7)); else repl("id", Value::boolean(true)); break;
+			case 3: drop("value"); break;
+			case 4: p.set("fetchOnly", Value::str("yes")); break;
+			case 5: p.set("timeout", Value::str("1")); break;
+			case 6: no_params = true; break;
+			case 7: params = Value::arr(); break;
+			case 8: p.set("access", Value::num(5)); break;
+			case 9: { Value a = Value::obj(); a.set("fetchGroups", Value::str("all")); p.set("access", a); break; }
+			case 10: params = Value::null(); break;
+			case 11: p.set("timeout", Value::num(0.0001)); break;
+			default: break;
+			}
+			if (mut != 7 && mut != 10) params = p;
+			Value r = Value::obj();
+			if (op.idm != ID_NONE) r.set("id", make_id(op));
+			r.set("method", Value::str(meths[mi]));
+			if (!no_params) r.set("params", params);
+			if (mi == 5) open_keys[{ci, js::dump(fetch_id_value(((op.b % 6) + 6) % 6))}]++;
+			send_value(ci, r, evs);
+			vd.labels.insert("mutated-request");
+			return;
+		}
 		case WSFRAME: {
 			codec::WsFrame f; f.opcode = op.a & 0xF; f.fin = op.b & 1; f.masked = (op.b >> 1) & 1; f.rsv = (op.b >> 2) & 7; f.lenenc = ((op.c % 3) + 3) % 3; f.payload = op.s;
 			uint32_t mk = (uint32_t)(op.d * 2654435761u + 77);
